@@ -22,10 +22,12 @@ func verifReencode(name, hexKey string, maxCase int) string {
 	letters := 0
 	for i := 2; i < len(b) && letters < maxCase; i++ {
 		if b[i] >= 'A' && b[i] <= 'F' {
-			letters++
-			if verifNondetBool(fmt.Sprintf("%s.lower%d", name, i)) {
+			// the bit is named by the letter's ordinal, not its position: the real
+			// keys of the native replay have their letters at other positions
+			if verifNondetBool(fmt.Sprintf("%s.lowerLetter%d", name, letters)) {
 				b[i] += 'a' - 'A'
 			}
+			letters++
 		}
 	}
 	return string(b)
